@@ -125,6 +125,16 @@ func init() {
 			}
 			return fr.i.boolv(lt)
 		},
+		vpkg + "SetEnv": func(fr *frame, a []value) value {
+			fr.i.m.Ghost[strArg(a[0])] = a[1]
+			return nil
+		},
+		vpkg + "GetEnv": func(fr *frame, a []value) value {
+			if v, ok := fr.i.m.Ghost[strArg(a[0])]; ok {
+				return v
+			}
+			return false
+		},
 		vpkg + "Symbolic": func(fr *frame, a []value) value { return true },
 		vpkg + "Logf":     func(fr *frame, a []value) value { return nil },
 	} {
